@@ -167,6 +167,9 @@ def run_check(pid: str, tier: str, seed: int, procs: int, only: str | None = Non
         return 2
     if only:
         jobs = [j for j in jobs if only in j.name]
+    if len({j.name for j in jobs}) != len(jobs):
+        print(f"HARNESS-ERROR property={pid} duplicate space names")
+        return 2
     tasks = []
     target_chunks = procs * 8
     for j in jobs:
